@@ -65,6 +65,7 @@ fn main() {
         "C11" => engine::run(&props::c11::C11, &opts),
         "C12" => engine::run(&props::c12::C12, &opts),
         "C15" => engine::run(&props::c15::C15, &opts),
+        "C16" => engine::run(&props::c16::C16, &opts),
         _ => {
             eprintln!("unknown property {}", id);
             2
